@@ -5,3 +5,4 @@ import JaxVerif.Properties.C06
 #print axioms JV.C06_generated
 #print axioms JV.C06_schedule_independent
 #print axioms JV.C06_sensitive
+#print axioms JV.C06_no_other_shared_state
